@@ -234,6 +234,17 @@ package schedule
 //@   at PromoteWaitingOperator 3 assert [ended-operator-left-and-recorded] !in(oc.operators, op.regionID) && endSt(op.status.current) && buriedSt[op] == op.status.current
 //@   modifies *
 
+// pollNeedDispatchRegion (one tick of the push loop): an operator whose region has vanished from the cluster leaves
+// the running set - whatever status it has by then (it may have timed out already) it is in an end status and
+// recorded afterwards; no other operator leaves or enters the running set.
+//@ func (*OperatorController).pollNeedDispatchRegion
+//@   props C09
+//@   requires oc != nil && ocOK(oc) && oc.cluster != nil
+//@   ensures [whoever-left-the-running-set-is-ended-and-recorded] forall id uint64 :: {old(in(oc.operators, id))} old(in(oc.operators, id)) && !in(oc.operators, id) ==> endSt(old(oc.operators[id]).status.current) && buriedSt[old(oc.operators[id])] == old(oc.operators[id]).status.current
+//@   ensures [nobody-enters] forall id uint64 :: {in(oc.operators, id)} in(oc.operators, id) ==> old(in(oc.operators, id)) && oc.operators[id] == old(oc.operators[id])
+//@   option nosafety
+//@   modifies oc.operators[*], oc.counts[*], all operator.Operator.status, all operator.Operator.currentStep, heap A:int64:, all operatorWithTime.time, ghost evres, ghost buriedSt
+
 // AddOperator: operators enter the running set only after checkAddOperator accepted them (current epoch, freshly
 // created, no running operator of the same or a higher priority); refused ones are all cancelled and recorded; the
 // running set stays well-formed either way.
